@@ -123,21 +123,16 @@ func (its *WiredDatatype) checkOptionAndError(ppp *model.PushPullPack) errors.Or
 		errOp, ok := operations.ModelToOperation(modelOp).(*operations.ErrorOperation)
 		if ok {
 			switch errOp.GetPushPullError().Code {
-			case errors.PushPullAbortionOfServer:
-				// TODO: implement me.
-			case errors.PushPullAbortionOfClient:
-				// TODO: implement me.
 			case errors.PushPullDuplicateKey:
 				return errors.DatatypeCreate.New(its.L(), fmt.Sprintf("duplicated key:'%s'", its.Key))
-			case errors.PushPullMissingOps:
-				// TODO: implement me.
 			case errors.PushPullNoDatatypeToSubscribe:
 				return errors.DatatypeSubscribe.New(its.L(), fmt.Sprintf("%v", errOp.GetPushPullError().Msg))
 			}
-			panic("Not implemented yet")
-		} else {
-			panic("Not implemented yet")
+			// any other refusal of the server (abortion, missing operations) is reported to the error handler;
+			// the datatype keeps its operations and checkpoint and can be synced again
+			return errors.ClientSync.New(its.L(), fmt.Sprintf("%v", errOp.GetPushPullError().Msg))
 		}
+		return errors.ClientSync.New(its.L(), "error response without an error operation")
 	} else if ppp.GetPushPullPackOption().HasSubscribeBit() && its.state != model.StateOfDatatype_SUBSCRIBED {
 		modelOp := ppp.GetOperations()[0]
 		_, ok := operations.ModelToOperation(modelOp).(*operations.SnapshotOperation)
